@@ -126,7 +126,7 @@ pub fn run(cfg: &Cfg, rep: &mut Report) {
     ];
     let haystacks = ["", "a", "ab", "aab", "xyz", "12-a 3-b", "éa\u{10000}b", "abcdefghijkl", "aAbBcC", "abcab", "y", "x", "bbb", "a\nb"];
     let mut rng = Rng::new(cfg.seed ^ 0x17);
-    let tpls = templates(&mut rng, if cfg.quick() { 3 } else { 4 }, cfg.scaled(if cfg.quick() { 2_000 } else { 50_000 }));
+    let tpls = templates(&mut rng, if cfg.quick() { 4 } else { 5 }, cfg.scaled(if cfg.quick() { 20_000 } else { 300_000 }));
     rep.add("templates", tpls.len() as u64);
     let mut idx = 0u64;
     for (ri, (pat, flags)) in regexes.iter().enumerate() {
